@@ -98,6 +98,49 @@ def c03_sweep(ctx, n):
             if r0.shape != r1.shape or not _close(r1, r0, float(np.max(np.abs(r0))) + 1e-300, 1e-7):
                 fails.append({"key": f"covariance:sensor:{skind}", "desc": f"get{field} seen by a Sensor changes when source and sensor are moved by one rigid motion (sensor orientation path: {skind})",
                               "replay": {"class": cls, "field": field, "sensor_quats": sori.as_quat().tolist(), "quat": Q.as_quat().tolist(), "t": t.tolist(), "pixel_agg": agg, "handedness": hand}})
+    # observers on the special loci of a body's own frame (the axis of a Cylinder / CylinderSegment, the planes of its end faces, the
+    # half-planes of its side faces, the prolongation of its hull; the face planes and edge lines of a Cuboid — all OFF the surface),
+    # seen after the whole setup was turned by a generic rotation and carried tens to hundreds of sizes away from the origin: the
+    # frame change puts such an observer back onto its locus only up to round-off, and the field must still be the rotated field
+    import magpylib as _mp
+    for i in range(max(6, n // 5)):
+        nps = np.random.default_rng(rng.randrange(2**31))
+        clsx = ["CylinderSegment", "Cylinder", "Cuboid", "CylinderSegment"][i % 4]
+        pol = nps.uniform(-1, 1, 3)
+        if clsx == "CylinderSegment":
+            r1, r2, h = float(nps.uniform(0.3, 0.9)), float(nps.uniform(1.2, 2.0)), float(nps.uniform(0.6, 2))
+            p1 = float(nps.uniform(-170, 100)); p2 = p1 + float(nps.uniform(30, 250))
+            srcx = _mp.magnet.CylinderSegment(dimension=(r1, r2, h, p1, p2), polarization=pol)
+            a1 = np.radians(p1)
+            loc = np.array([[0, 0, 0.3 * h], [0, 0, 1.7 * h], [0, 0, -h], [2.5 * r2, 0.4, h / 2], [-1.7 * r2, 0.9, -h / 2], [2.2 * r2 * np.cos(a1), 2.2 * r2 * np.sin(a1), 0.3 * h],
+                            [r2 * np.cos(a1 + 0.3), r2 * np.sin(a1 + 0.3), 1.4 * h], [r1 * np.cos(a1 + 0.5), r1 * np.sin(a1 + 0.5), -1.6 * h]])
+            size = r2
+        elif clsx == "Cylinder":
+            d_, h = float(nps.uniform(1, 3)), float(nps.uniform(0.6, 2))
+            srcx = _mp.magnet.Cylinder(dimension=(d_, h), polarization=pol)
+            loc = np.array([[0, 0, 1.3 * h], [0, 0, -2 * h], [d_, 0.3, h / 2], [-0.9 * d_, 0.7, -h / 2], [d_ / 2, 0, 1.5 * h], [0.3 * d_, 0.4 * d_, -1.2 * h]])
+            size = d_
+        else:
+            dim = nps.uniform(0.5, 2, 3)
+            srcx = _mp.magnet.Cuboid(dimension=dim, polarization=pol)
+            loc = np.array([[dim[0] / 2, 2 * dim[1], 0.3 * dim[2]], [1.7 * dim[0], dim[1] / 2, -dim[2] / 2], [dim[0] / 2, dim[1] / 2, 2.2 * dim[2]], [-dim[0] / 2, -1.8 * dim[1], dim[2] / 2],
+                            [0.2 * dim[0], 0.1 * dim[1], 1.5 * dim[2]]])
+            size = float(np.max(dim))
+        f_loc = _mp.getB(srcx, loc), _mp.getH(srcx, loc)
+        Q, t = R.random(rng=nps), nps.uniform(-1, 1, 3) * size * 10.0 ** nps.uniform(1, 2.5)
+        moved = srcx.copy()
+        moved.rotate(Q, anchor=0).move(t)
+        glob = Q.apply(loc) + t
+        done += 1
+        per["special-loci:" + clsx] = per.get("special-loci:" + clsx, 0) + 1
+        for nm, fl, fg in (("B", f_loc[0], _mp.getB(moved, glob)), ("H", f_loc[1], _mp.getH(moved, glob))):
+            exp = Q.apply(fl)
+            sc = float(np.max(np.abs(exp))) + 1e-300
+            if not (np.isfinite(fg).all() and _close(fg, exp, sc, 1e-6)):
+                fails.append({"key": f"covariance:special-loci:{clsx}", "desc": f"get{nm} at observers on the special loci of a {clsx}'s own frame (axis, face planes, side half-planes, hull prolongation; off the surface) "
+                              f"is not the rotated field after the setup was turned and carried {np.linalg.norm(t) / size:.0f} sizes away (rel. dev. {float(np.nanmax(np.abs(fg - exp)) / sc):.2g}, finite: {bool(np.isfinite(fg).all())})",
+                              "replay": {"class": clsx, "dimension": np.asarray(srcx.dimension).tolist(), "quat": Q.as_quat().tolist(), "t": t.tolist(), "local_observers": loc.tolist()}})
+                break
     # nested compounds moved as a whole through the collection API (rotate about own centre / anchor, then move)
     for i in range(max(6, n // 6)):
         nps = np.random.default_rng(rng.randrange(2**31))
